@@ -6,6 +6,7 @@ pub type AreaFn = fn(&Value) -> Vec<Value>;
 mod c15rt;
 pub mod co;
 mod conc;
+mod connreal;
 mod mon;
 pub mod sched;
 pub mod pool;
@@ -33,6 +34,7 @@ pub fn lookup(name: &str) -> Option<AreaFn> {
         "pws" => Some(pws::run),
         "co" => Some(co::run),
         "conc" => Some(conc::run),
+        "connreal" => Some(connreal::run),
         "sched" => Some(sched::run),
         "pool" => Some(pool::run),
         "joinh" => Some(joinh::run),
